@@ -42,7 +42,7 @@ def lf_cases(tier, seed):
 def _run(root, layout, ns, data, w):
     np2.clean(root)
     if layout == "NP2.4":
-        sites = np2.sites_for([0, 1, 1, 0])
+        sites = np2.sites_for([0, 1, 1, 1])          # uneven shanks: one site on shank 0, three on shank 1
         ap = np2.make_session(root, "NP2.4", sites, data)
     else:
         sites = np2.sites_for([0, 0, 0, 0])
